@@ -100,9 +100,10 @@ def build_functions(c, tier, table, emin, emax):
     # ---- strings.rs
     a = alpha(b"\\!a \\", MB, b"\0", b"-")
     cs = strings_over(alpha(b"\\!\\a", MB, b"\0"), 5) + rand_strings(rng, alpha(b"\\\\\\!\"#/a[]`~ ", MB, b"\0"), R)
+    cs += [b"\\" + bytes([b]) for b in range(256)] + [b"a\\" + bytes([b]) + b"\\" for b in range(256)]      # every byte after a backslash
     simple("strings::unescape", "sl_unescape", cs)
     ws = alpha(b" \t\n\r\x0b\x0ca", MB, b"\0")
-    cs = strings_over(ws, 4) + rand_strings(rng, ws, R)
+    cs = strings_over(ws, 4) + rand_strings(rng, ws, R) + [bytes([b]) + b"x" + bytes([b]) for b in range(256)]
     for nm, op in (("rtrim", "sl_rtrim"), ("ltrim", "sl_ltrim"), ("trim", "sl_trim"), ("ltrim_slice", "sl_ltrim_slice"),
                    ("rtrim_slice", "sl_rtrim_slice"), ("trim_slice", "sl_trim_slice"), ("is_blank", "sl_is_blank")):
         simple("strings::" + nm, op, cs)
@@ -138,6 +139,7 @@ def build_functions(c, tier, table, emin, emax):
     ec = entity_cases(rng, table, emax)
     ea = alpha(b"#xX0aF9;& g", MB, b"\0")
     ec += strings_over(ea, 4 if q else 5) + rand_strings(rng, alpha(b"#xX0123456789abcdefABCDEF;;;& gamplt", MB, b"\0"), R)
+    ec += [b"#x" + bytes([b]) + b";" for b in range(256)] + [b"#" + bytes([b]) + b";" for b in range(256)] + [b"#1" + bytes([b]) for b in range(256)]
     simple("entity::unescape", "sl_entity_unescape", ec)
     eh = [b"&" + e for e in ec[: (3000 if q else len(ec))]] + strings_over(ent_bits, 3) + rand_strings(rng, ent_bits + [b"&#", b"&#x", b"0", b"1", b"f", b"F"], R)
     simple("entity::unescape_html", "sl_unescape_html", eh)
@@ -147,6 +149,8 @@ def build_functions(c, tier, table, emin, emax):
     deep = [b"(" * k + b"a" + b")" * k + t for k in (30, 31, 32, 33, 34) for t in (b"", b" ", b")", b" x")]
     deep += [b"(" * k + b")" * j + b" " for k in (31, 32, 33) for j in (k - 1, k, k + 1)]
     deep += [b"\\(" * 40 + b"(" * 32 + b")" * 32 + b")", b"()" * 100 + b" ", b"(" * 32 + b"\\)" + b")" * 32 + b" "]
+    deep += [bytes([b]) + b" " for b in range(256)] + [b"a" + bytes([b]) + b" " for b in range(256)] + [b"a\\" + bytes([b]) + b") " for b in range(256)]
+    deep += [b"<a" + bytes([b]) + b">x" for b in range(256)]
     simple("inlines::manual_scan_link_url", "sl_scan_url", cs + deep)
     simple("inlines::manual_scan_link_url_2", "sl_scan_url2", cs + deep)
     # ---- autolink.rs / table.rs
@@ -165,6 +169,8 @@ def build_functions(c, tier, table, emin, emax):
             for rel in (0, 1):
                 dcases.append(f"sl_autolink_delim {hx(s)} {e} {rel}")
     dcases += [f"sl_autolink_delim {hx(b'www.a.com/x' + b')' * k)} {11 + k} 0" for k in (1, 2, 50, 300)]
+    dcases += [f"sl_autolink_delim {hx(b'ab' + bytes([b]))} 3 {rel}" for b in range(256) for rel in (0, 1)]     # every closing byte
+    dcases += [f"sl_autolink_delim {hx(b'a&' + bytes([b]) + b';')} 4 0" for b in range(256)]
     dcases += [f"sl_autolink_delim {hx(b'a&amp;')} 6 0", f"sl_autolink_delim {hx(b'a&;')} 3 0", f"sl_autolink_delim {hx(b'&amp;')} 5 0",
                f"sl_autolink_delim {hx(b';')} 1 0", f"sl_autolink_delim {hx(b'a;')} 2 0", f"sl_autolink_delim {hx(b'ab;')} 3 0"]
     fns.append(Fn("autolink::autolink_delim", dcases))
@@ -181,6 +187,7 @@ def build_functions(c, tier, table, emin, emax):
     ma = alpha(b"-+*1.) \t\n\ra0", MB, b"\0")
     lm = []
     ms = strings_over(ma, 4) + rand_strings(rng, ma, R) + [b"1" * k + t for k in range(7, 12) for t in (b". a\n", b")\n", b".\n", b"")]
+    ms += [bytes([b]) + b" a\n" for b in range(256)] + [b"1" + bytes([b]) + b" a\n" for b in range(256)] + [b"-" + bytes([b]) + b"\n" for b in range(256)]
     ms += [b"123456789. a\n", b"1234567890. a\n", b"0. a\n", b"1. \n", b"1.  \r\n", b"-   \n", b"-   \r\n", b"*\r\n", b"2. a\n"]
     for s in ms:
         for pos in (range(0, len(s) + 1) if len(s) <= 3 else (0, rng.randrange(0, len(s) + 1))):
@@ -206,12 +213,13 @@ def entities_table():
     return int(toks[1]), int(toks[2]), pairs
 
 
-def tie_strleaf(c, tier, profile="debug"):
+def tie_strleaf(c, tier, profile="debug", translator_done=False):
     """builds, translator items, and the per-function correspondences.  Returns True when everything agreed."""
     # the `entities` translator item runs the harness: build it first
     if not c.phase_builds((profile,), driver=False):
         return False
-    c.phase_translator(ITEMS)
+    if not translator_done:
+        c.phase_translator(ITEMS)
     if not c.phase_builds((profile,)):
         return False
     ed = entities_table()
@@ -264,7 +272,7 @@ def main(tier):
         c.finish(rule="build failed")
     c.phase_translator(ITEMS)
     c.phase_proofs(file="StrLeaf")
-    tie_strleaf(c, tier)
+    tie_strleaf(c, tier, translator_done=True)
     c.finish(level="proof",
              rule="per leaf function: every string up to length 3..5 over the bytes its code distinguishes plus a multi-byte character and NUL, "
                   "random longer strings, every entry of the entities table with perturbations; a case is non-trivial when its argument is longer than 3 bytes; "
